@@ -60,6 +60,10 @@ func (ww *conversionVisitor) visitServiceNode(node *sourcewalk.ServiceNode) {
 
 	serviceWalker := ww.subPackageFile("service")
 
+	if !ww.checkIdent(node.Source, "service", node.Name) {
+		return
+	}
+
 	service := blankService(node.Name)
 
 	for _, method := range node.Methods {
@@ -78,6 +82,9 @@ func (ww *conversionVisitor) visitServiceNode(node *sourcewalk.ServiceNode) {
 func (ww *conversionVisitor) visitServiceMethodNode(service *serviceBuilder, node *sourcewalk.ServiceMethodNode) {
 
 	method := node.Schema
+	if !ww.checkIdent(node.Source, "method", method.Name) {
+		return
+	}
 	methodBuilder := blankMethod(method.Name)
 	methodBuilder.comment([]int32{}, method.Description)
 	ww.file.ensureImport(googleApiAnnotationsImport)
